@@ -37,7 +37,7 @@ Proof. exact grown_events. Qed.
 (** the world-level iterator over per-archetype logs (model of EcsEventIterator): on these log shapes,
     including empty logs at the front, in the middle and at the end, it yields the concatenation and
     an exact size_hint before every next().  (Finite instances evaluated by the kernel; the general
-    induction over the number of archetypes is not yet proved.) *)
+    theorem follows.) *)
 Example C17_world_iterator_instances :
   let h := (fun k : N => (k, 1%N)) in
   world_events_obs [[h 1%N; h 2%N]; []; [h 3%N]; []] = [3; 1; 1; 2; 1; 3; 1; 3; 4; 2; 3; 1; 2; 0; 1]%N /\
@@ -45,3 +45,15 @@ Example C17_world_iterator_instances :
   world_events_obs [[]; []] = [0; 0; 1]%N /\
   world_events_obs [[h 7%N]] = [1; 7; 1; 1; 2; 0; 1]%N.
 Proof. vm_compute. repeat split. Qed.
+
+From Gecs Require Import EventFacts.
+
+(** For any number of archetypes and any logs: the world-level iterator yields exactly the
+    concatenation of the per-archetype logs (each event once, archetype order), and before the k-th
+    next() its size_hint is (total - k, Some (total - k)), observed as the pair (min, max + 1). *)
+Theorem C17_world_iterator_exact : forall logs,
+  let total := length (concat logs) in
+  world_events_obs logs =
+    N.of_nat total :: concat (o_handle <$> concat logs)
+      ++ concat ((fun k => [N.of_nat (total - k); N.of_nat (S (total - k))]) <$> seq 0 (S total)).
+Proof. exact world_events_exact. Qed.
